@@ -26,16 +26,29 @@ fn c03_chain(depth: usize, max_len: u32) {
   }
   let script = draw_script(max_len, true);
   e::note(format!("chain {} ; input [{}]", chain.iter().map(|(o, p)| show_p(*o, p)).collect::<Vec<_>>().join(" -> "), script.show()));
-  let hot = e::choose_bool();
+  // source kinds: cold create(), from_iter (completing scripts only: it consults is_finished),
+  // hot create() handle, hot Subject (consults is_finished / is_closed of its subscribers)
+  let src_kind = e::choose(4);
   let probe = fresh_probe();
-  if hot {
-    let o = build_chain(cat::hot(), &chain);
-    let _u = subscribe(o, probe);
-    let mut h = cat::handle(0);
-    feed_script(&mut h, &script);
-  } else {
-    let o = build_chain(cat::cold(script.items.clone(), script.term.clone(), 0), &chain);
-    let _u = subscribe(o, probe);
+  match src_kind {
+    0 => {
+      let o = build_chain(cat::cold(script.items.clone(), script.term.clone(), 0), &chain);
+      let _u = subscribe(o, probe);
+    }
+    1 => {
+      if !matches!(script.term, Tm::Complete) {
+        e::prune();
+      }
+      let src: Obs = observable::from_iter(script.items.clone()).on_error_map(|_: std::convert::Infallible| Val::c(0)).box_it();
+      let _u = subscribe(build_chain(src, &chain), probe);
+    }
+    k => {
+      let o = build_chain(cat::hot_kind(0, k - 2), &chain);
+      let _u = subscribe(o, probe);
+      for ev in script.events() {
+        cat::feed_hot(0, &ev);
+      }
+    }
   }
   let got = probe.events();
   verify_against(&got, &chain, &script, &chain_key("seq-mismatch", &chain));
@@ -452,6 +465,39 @@ pub(crate) fn c15_finalize(k: usize, threads_form: bool) {
   };
   let mut unsub: Option<Box<dyn FnOnce()>>;
   let mut feeder: Box<dyn FnMut(&Ev)>;
+  let by_guard = e::choose_bool();
+  // a source that never terminates and whose own subscription is the unit type (reports closed at once)
+  let never_src = pre.is_none() && post.is_none() && e::choose(4) == 0;
+  if never_src {
+    e::note(format!("never().finalize{} ; released by {}", if threads_form { "_threads" } else { "" }, if by_guard { "guard drop" } else { "unsubscribe()" }));
+    let src = observable::never().map(|_: ()| Val::c(0)).on_error_map(|_: std::convert::Infallible| Val::c(0));
+    if threads_form {
+      let u = src.finalize_threads(fin_cb).actual_subscribe(probe);
+      if world::counter(1) != 0 {
+        e::fail("finalize/ran-early", || "finalizer ran at subscription".to_string());
+      }
+      if by_guard {
+        drop(u.unsubscribe_when_dropped());
+      } else {
+        u.unsubscribe();
+      }
+    } else {
+      let u = src.finalize(fin_cb).actual_subscribe(probe);
+      if world::counter(1) != 0 {
+        e::fail("finalize/ran-early", || "finalizer ran at subscription".to_string());
+      }
+      if by_guard {
+        drop(u.unsubscribe_when_dropped());
+      } else {
+        u.unsubscribe();
+      }
+    }
+    if world::counter(1) != 1 {
+      e::fail("finalize/not-run-after-trigger", || format!("subscription over never() released: finalizer count {}", world::counter(1)));
+    }
+    e::cover("c15-path-complete");
+    return;
+  }
   if !threads_form {
     let mut o = cat::hot();
     if let Some((op, p)) = &pp {
@@ -465,7 +511,7 @@ pub(crate) fn c15_finalize(k: usize, threads_form: bool) {
       }
       None => BoxSubscription::new(o.actual_subscribe(probe)),
     };
-    unsub = Some(Box::new(move || u.unsubscribe()));
+    unsub = Some(Box::new(move || if by_guard { drop(u.unsubscribe_when_dropped()) } else { u.unsubscribe() }));
     let mut h = cat::handle(0);
     feeder = Box::new(move |ev| feed(&mut h, ev));
   } else {
@@ -481,7 +527,7 @@ pub(crate) fn c15_finalize(k: usize, threads_form: bool) {
       }
       None => BoxSubscriptionThreads::new(o.actual_subscribe(probe)),
     };
-    unsub = Some(Box::new(move || u.unsubscribe()));
+    unsub = Some(Box::new(move || if by_guard { drop(u.unsubscribe_when_dropped()) } else { u.unsubscribe() }));
     let mut h = cat::handle_t(0);
     feeder = Box::new(move |ev| feed_t(&mut h, ev));
   }
